@@ -860,6 +860,10 @@ func (e *Env) binop(op token.Token, a, b Value, at ast.Node) Value {
 			sb = Scalar{Int2BV(sa.T.S.W, sb.T), sa.Typ}
 		case sb.T.S.K == KBV && sa.T.S == IntS:
 			sa = Scalar{Int2BV(sb.T.S.W, sa.T), sb.Typ}
+		case (sa.T.S.K == KUn || sb.T.S.K == KUn) && (op == token.EQL || op == token.NEQ) && !e.contract:
+			// an interface value compared with a concrete one: equal exactly when the dynamic type and
+			// value agree, which the abstract representation does not determine: an unknown truth value
+			return Scalar{e.x.fresh("ifacecmp", BoolS), boolT}
 		default:
 			unsupported("%s: operands of %s have different representations (%s, %s)", e.where, op, sa.Typ, sb.Typ)
 		}
